@@ -42,6 +42,7 @@ type Req struct {
 	Prefix       string   `json:"prefix"`
 	Lines        []Line   `json:"lines"`
 	Pre          []Line   `json:"pre"` // lines in front of the User-Agent line(s)
+	Trailers     []Line   `json:"trailers"` // trailer section after a one-octet body, names announced in Trailer
 }
 
 type Scenario struct {
@@ -59,6 +60,7 @@ type Obs struct {
 	Method    string              `json:"method"`
 	URI       string              `json:"uri"`
 	Headers   map[string][]string `json:"headers"`
+	Trailers  map[string][]string `json:"trailers"` // what the backend found in the trailer section, by canonical name
 	Baseline  map[string][]string `json:"baseline"`
 	Backend   string              `json:"backend_host"`
 	Peer      string              `json:"peer"`
@@ -194,7 +196,20 @@ func (c *conn) do(st *stack.Stack, sc Scenario, tag string, baseline bool) Obs {
 		sid := c.next
 		c.next += 2
 		c.cl.Conn.SetDeadline(time.Now().Add(15 * time.Second))
-		c.cl.Conn.Write(h2raw.Headers(sid, true, h2raw.Block(fields), nil, 0))
+		if len(r.Trailers) > 0 && !baseline {
+			var names []string
+			var tf []h2raw.HF
+			for _, l := range r.Trailers {
+				names = append(names, spell(l, true))
+				tf = append(tf, h2raw.HF{spell(l, true), l.V})
+			}
+			fields = append(fields, h2raw.HF{"trailer", strings.Join(names, ", ")})
+			c.cl.Conn.Write(h2raw.Headers(sid, false, h2raw.Block(fields), nil, 0))
+			c.cl.Conn.Write(h2raw.Data(sid, false, []byte("x"), 0))
+			c.cl.Conn.Write(h2raw.Headers(sid, true, h2raw.Block(tf), nil, 0))
+		} else {
+			c.cl.Conn.Write(h2raw.Headers(sid, true, h2raw.Block(fields), nil, 0))
+		}
 		if err := c.hc.WaitStreams(sid); err != nil {
 			o.Err = "h2: " + err.Error()
 			return o
@@ -225,11 +240,24 @@ func (c *conn) do(st *stack.Stack, sc Scenario, tag string, baseline bool) Obs {
 			if r.Custom != "absent" {
 				fmt.Fprintf(&b, "X-Vf-Custom: %s\r\n", r.Custom)
 			}
-			if method == "POST" || method == "PATCH" || method == "PUT" {
+			if len(r.Trailers) > 0 {
+				var names []string
+				for _, l := range r.Trailers {
+					names = append(names, spell(l, false))
+				}
+				fmt.Fprintf(&b, "Transfer-Encoding: chunked\r\nTrailer: %s\r\n", strings.Join(names, ", "))
+			} else if method == "POST" || method == "PATCH" || method == "PUT" {
 				b.WriteString("Content-Length: 0\r\n")
 			}
 		}
 		b.WriteString("\r\n")
+		if len(r.Trailers) > 0 && !baseline {
+			b.WriteString("1\r\nx\r\n0\r\n")
+			for _, l := range r.Trailers {
+				fmt.Fprintf(&b, "%s: %s\r\n", spell(l, false), l.V)
+			}
+			b.WriteString("\r\n")
+		}
 		o.Wire = b.String()
 		resp, rb, err := c.cl.H1(b.String(), method)
 		if err != nil {
@@ -245,6 +273,14 @@ func (c *conn) do(st *stack.Stack, sc Scenario, tag string, baseline bool) Obs {
 		for _, k := range universe {
 			if v := br.Header.Values(k); len(v) > 0 {
 				o.Headers[k] = append(o.Headers[k], v...)
+			}
+		}
+		for k, v := range br.Trailer {
+			if len(v) > 0 {
+				if o.Trailers == nil {
+					o.Trailers = map[string][]string{}
+				}
+				o.Trailers[http.CanonicalHeaderKey(k)] = append(o.Trailers[http.CanonicalHeaderKey(k)], v...)
 			}
 		}
 	}
